@@ -118,6 +118,39 @@ func curGid() uint64 {
 	return g
 }
 
+// goroutineBlocked reports whether goroutine gid is parked in a blocking
+// operation (mutex, channel, select, condition variable, sleep, ...) rather than
+// running, runnable or in a system call. Used only after a real-time wait ran
+// out, to tell a task blocked on a real lock of the code under test from one
+// that is merely slow (large copies on a loaded machine).
+//
+//go:norace
+func goroutineBlocked(gid uint64) bool {
+	buf := make([]byte, 1<<20)
+	for {
+		n := runtime.Stack(buf, true)
+		if n < len(buf) {
+			buf = buf[:n]
+			break
+		}
+		buf = make([]byte, 2*len(buf))
+	}
+	hdr := []byte("goroutine " + strconv.FormatUint(gid, 10) + " [")
+	i := bytes.Index(buf, hdr)
+	if i < 0 {
+		return false
+	}
+	st := buf[i+len(hdr):]
+	if j := bytes.IndexAny(st, ",]"); j >= 0 {
+		st = st[:j]
+	}
+	switch string(st) {
+	case "running", "runnable", "syscall", "GC assist marking", "GC assist wait", "GC sweep wait", "GC scavenge wait", "GC worker (idle)", "preempted", "copystack", "waiting":
+		return false
+	}
+	return true
+}
+
 // CurGid is the id of the calling goroutine.
 func CurGid() uint64 { return curGid() }
 
@@ -291,13 +324,21 @@ func (s *Sched) release(t *Task) {
 			t.late = false
 		}
 		t.resume <- struct{}{}
-		select {
-		case <-t.arrive:
-		case <-time.After(20 * RealBlockWait):
-			// blocked on a real lock inside the library (see awaitArrival); correct
-			// code never gets here: every wait of a ModePlain run is a gate
-			s.RealBlocked++
-			t.late = true
+	wait:
+		for {
+			select {
+			case <-t.arrive:
+				break wait
+			case <-time.After(20 * RealBlockWait):
+				if !goroutineBlocked(t.gid) {
+					continue // slow, not blocked
+				}
+				// blocked on a real lock inside the library (see awaitArrival);
+				// correct code never gets here: every wait of a ModePlain run is a gate
+				s.RealBlocked++
+				t.late = true
+				break wait
+			}
 		}
 	case ModeBubble:
 		t.resume <- struct{}{}
@@ -322,6 +363,10 @@ func (s *Sched) awaitArrival(t *Task) {
 	for t.state == stRunning {
 		left := time.Until(deadline)
 		if left <= 0 {
+			if !goroutineBlocked(t.gid) {
+				deadline = time.Now().Add(RealBlockWait) // slow, not blocked
+				continue
+			}
 			s.RealBlocked++
 			return // still inside the library: counted as blocked there
 		}
